@@ -88,6 +88,21 @@ def do_case(ctx, inp):
         nb = pnd.boolean_ndarray.from_list([lst, lst[:1]], ids).tolist()
         if [[int(x) for x in r] for r in nb] != [[int(i in l) for i in ids] for l in (lst, lst[:1])]:
             ctx.fail("nested-from_list-wrong", {"got": nb})
+    if lst:
+        # the same conversions with VARIABLE OBJECTS on both sides (what `to_list()` returns and `.variables` holds): a listed
+        # variable is the context's variable of that id — its own object, a fresh one with default bounds, or one narrowed
+        # elsewhere (variables are equal when their ids are)
+        byid = {key(v.id): v for v in vs}
+        forms = [[byid.get(key(i)) or puan.variable(i) for i in lst], [puan.variable(i) for i in lst],
+                 [puan.variable(i, (1, 1)) for i in lst]]
+        lv = forms[ctx.rng.randrange(3)]
+        ctx.tags["from_list-over-variable-objects"] += 1
+        fb = [int(x) for x in pnd.boolean_ndarray.from_list(lv, vs).tolist()]
+        fi = [int(x) for x in pnd.integer_ndarray.from_list(lv, vs).tolist()]
+        if fb != [int(i in lst) for i in ids] or fi != [(1 + lst.index(i)) if i in lst else 0 for i in ids]:
+            ctx.fail("from_list-over-variable-objects-wrong", {"listed": [[key(v.id), int(v.bounds.lower), int(v.bounds.upper)] for v in lv],
+                                                               "context": [[key(v.id), int(v.bounds.lower), int(v.bounds.upper)] for v in vs],
+                                                               "boolean": fb, "integer": fi})
     # nested / empty forms of the list conversions, and to_list on a matrix
     if lst:
         ni = pnd.integer_ndarray.from_list([lst, lst[:1]], ids).tolist()
